@@ -621,7 +621,20 @@ Definition w_no_values : bytes :=
 Definition w_packed_value : bytes :=
   (hx "020000000100000001000000030000000500000000000000060000000000000007000000000000000100030000000000000000000100000002000000"
   ++ repeat 255%N 128)%list.
+(* 2x1x1 sub-blocks, labels {5,6}; the first sub-block declares 513 labels, with all the
+   (zero) indices and 10-bit packed values that would go with them *)
+Definition w_many_labels : bytes :=
+  (hx "020000000100000001000000020000000500000000000000060000000000000001020100" ++ repeat 0%N (514 * 4 + 640))%list.
+(* one label, zero sub-blocks in x *)
+Definition w_zero_dim_solid : bytes := hx "000000000100000001000000010000000500000000000000".
 Local Close Scope string_scope.
+
+Lemma impl_many_labels_accepted :
+  exists b, parse_block_impl w_many_labels = Ok b /\ view_calc b = Panic.
+Proof. eexists. split; [vm_compute; reflexivity|]. vm_compute. reflexivity. Qed.
+Lemma impl_zero_dim_solid_accepted :
+  exists b, parse_block_impl w_zero_dim_solid = Ok b /\ view_volume b = Panic /\ view_calc b = Ok tt.
+Proof. eexists. split; [vm_compute; reflexivity|]. split; vm_compute; reflexivity. Qed.
 
 Lemma impl_inflated_labels_panics : parse_block_impl w_inflated_labels = Panic.
 Proof. vm_compute. reflexivity. Qed.
@@ -645,7 +658,8 @@ Qed.
 Lemma fixed_rejects_witnesses :
   ingest_block true w_inflated_labels = Err /\ ingest_block true w_zero_dim = Err /\
   ingest_block true w_index_outside = Err /\ ingest_block true w_no_values = Err /\
-  ingest_block true w_packed_value = Err.
+  ingest_block true w_packed_value = Err /\ ingest_block true w_many_labels = Err /\
+  ingest_block true w_zero_dim_solid = Err.
 Proof. repeat split; vm_compute; reflexivity. Qed.
 
 (* request level, with the identity as the gzip oracle *)
